@@ -103,10 +103,40 @@ func VerifSyncBlock() {
 			sv.winners = []*graderStake.GradingSPR{w}
 		}
 	}
-	// closed-era tolerance bands (1 %, 0.1 %, 10 %) use non-dyadic float constants the exact
-	// float model cannot follow: with both winners present only heights >= 2.0.2 are explored
-	if oprState == 2 && sprState == 2 {
-		vrt.Assume(height < specV20 || height >= specV202)
+	// closed-era tolerance bands (0.1 % before the developer-reward activation, 10 % up to 2.0.2):
+	// their float products are rounded; the engine forks per binade, so with both winners present
+	// the rates of these eras are drawn from one binade-sized window to keep the path count small
+	closedBoth := oprState == 2 && sprState == 2 && height >= specV20 && height < specV202
+	bandOK := true
+	if closedBoth {
+		for _, r := range []uint64{oPEG, oUSD, oXBT, sPEG, sUSD, sXBT} {
+			vrt.Assume(r >= 1<<26)
+			vrt.Assume(r < 1<<27)
+		}
+		t := 0.1
+		if height < specV20Dev {
+			t = 0.001 // staking rates >= 100000 here
+		}
+		in := func(o, s uint64) bool {
+			return vrt.AndB(float64(o) >= float64(s)*(1-t), float64(o) <= float64(s)*(1+t))
+		}
+		if !vrt.AndB(vrt.AndB(in(oPEG, sPEG), in(oUSD, sUSD)), in(oXBT, sXBT)) {
+			bandOK = false
+			vrt.Cover("closed-era-out-of-band")
+		} else {
+			vrt.Cover("closed-era-in-band")
+		}
+	}
+	// Known finding D7 (closed era [2.0, 2.0.2)): when the winning OPR is outside the band the
+	// rate routine's error is dropped (`return err` of the wrong variable): SyncBlock returns nil
+	// right there and the block is committed without ANY of its effects (no rewards, burns,
+	// transactions, holding pass, snapshot, developer payout).
+	d7 := closedBoth && !bandOK
+	tag := func(id string) string {
+		if d7 {
+			return id + "@D7"
+		}
+		return id
 	}
 
 	// ---- Factom requests
@@ -203,13 +233,14 @@ func VerifSyncBlock() {
 	if height >= specV20 {
 		hasRates = oprWin || sprWin
 	}
+	if d7 {
+		hasRates = false // the era's rule refuses out-of-band rates
+	}
 	var nRates int
 	var pegRate, usdRate int64
 	if qerr := tx.QueryRow(`SELECT COUNT(*), IFNULL(MAX(CASE WHEN token = 'PEG' THEN value ELSE -1 END), -1), IFNULL(MAX(CASE WHEN token = 'pUSD' THEN value ELSE -1 END), -1) FROM pn_rate WHERE height = ?`, height).Scan(&nRates, &pegRate, &usdRate); qerr != nil {
 		panic(qerr)
 	}
-	// Known finding D7 (closed era [2.0, 2.0.2)): a band violation returns the wrong error
-	// variable; not reachable here because both-winner runs are restricted to >= 2.0.2.
 	vrt.Assert("C12.rates-recorded-iff-block-has-winners", (nRates > 0) == hasRates)
 	if hasRates {
 		vrt.Assert("C12.one-rate-row-per-asset-of-the-record", nRates == 3)
@@ -226,21 +257,24 @@ func VerifSyncBlock() {
 			vrt.Assert("C12.recorded-rates-are-the-winning-oprs", uint64(usdRate) == oUSD)
 		} else if !oprWin && sprWin {
 			vrt.Assert("C12.recorded-rates-are-the-winning-sprs-when-no-opr", uint64(usdRate) == sUSD)
-		} else {
+		} else if height >= specV202 {
 			// both, >= 2.0.2: 25 % band, out-of-band => 0
 			inside := vrt.AndB(3*sUSD <= 4*oUSD, 4*oUSD <= 5*sUSD)
 			vrt.Assert("C12.band-rule-of-the-era", uint64(usdRate) == vrt.IteU64(inside, oUSD, 0))
+		} else {
+			// both, closed era, in band: the OPR's rates
+			vrt.Assert("C12.band-rule-of-the-era", uint64(usdRate) == oUSD)
 		}
 	}
 	// ---- rewards and burns
 	pegOf := func(a factom.FAAddress) uint64 { return uint64(vrtBalance(tx, a, fat2.PTickerPEG)) }
 	if oprWin {
-		vrt.Assert("C11.opr-winner-paid", pegOf(miner) == uint64(oprPay))
+		vrt.Assert(tag("C11.opr-winner-paid"), pegOf(miner) == uint64(oprPay))
 	} else {
 		vrt.Assert("C11.no-opr-winner-no-mining-reward", pegOf(miner) == 0)
 	}
 	if sprWin {
-		vrt.Assert("C11.spr-winner-paid-from-2.0", pegOf(staker) == uint64(sprPay))
+		vrt.Assert(tag("C11.spr-winner-paid-from-2.0"), pegOf(staker) == uint64(sprPay))
 	} else {
 		vrt.Assert("C11.no-staking-reward-before-2.0-or-without-winner", pegOf(staker) == 0)
 	}
@@ -256,7 +290,7 @@ func VerifSyncBlock() {
 		panic(qerr)
 	}
 	wantDev := height >= specV20Dev && height%specSnapshotRate == 0
-	vrt.Assert("C15.developer-payout-exactly-on-cadence", (devRows == 1) == wantDev && devRows <= 1)
+	vrt.Assert(tag("C15.developer-payout-exactly-on-cadence"), (devRows == 1) == wantDev && devRows <= 1)
 	mintUSD := uint64(vrtBalance(tx, vrtMustAddr(specMintAddr), fat2.PTickerUSD))
 	switch height {
 	case specV204:
@@ -273,9 +307,9 @@ func VerifSyncBlock() {
 	}
 	// (when the block itself has no rates the most recent earlier rates are used)
 	wantSnap := height >= specV20 && height%specSnapshotRate == 0
-	vrt.Assert("C14.snapshot-exactly-on-cadence", (snapPast > 0) == wantSnap)
+	vrt.Assert(tag("C14.snapshot-exactly-on-cadence"), (snapPast > 0) == wantSnap)
 	if wantSnap {
-		vrt.Assert("C14.holder-paid-at-snapshot", pegOf(holder) > 0 || (hasRates && usdRate <= 0))
+		vrt.Assert(tag("C14.holder-paid-at-snapshot"), pegOf(holder) > 0 || (hasRates && usdRate <= 0))
 	} else {
 		vrt.Assert("C14.no-holder-payout-off-cadence", pegOf(holder) == 0)
 	}
